@@ -74,6 +74,34 @@ fn pause_main(env: &mut VEnv, args: Vec<Field>) -> Pin<Box<dyn Future<Output = B
     })
 }
 
+/// Number of commands of the pipeline kinds ("Pipe", "Pipe3", "Pipe4", "NotPipe", "NotPipe3").
+fn pipe_width(kind: &str) -> Option<usize> {
+    match kind {
+        "Pipe" | "NotPipe" => Some(2),
+        "Pipe3" | "NotPipe3" => Some(3),
+        "Pipe4" => Some(4),
+        _ => None,
+    }
+}
+
+/// `selfkill SIG`: the calling shell process sends SIG (INT, TERM, KILL) to
+/// itself (`$$` is the main shell's pid in every subshell, and there is no
+/// other way for a subshell to learn its own pid).
+fn selfkill_main(env: &mut VEnv, args: Vec<Field>) -> Pin<Box<dyn Future<Output = BResult> + '_>> {
+    Box::pin(async move {
+        use yash_env::system::{GetPid as _, SendSignal as _};
+        let sig = match args.first().map(|f| f.value.as_str()) {
+            Some("INT") => yash_env::system::r#virtual::SIGINT,
+            Some("TERM") => yash_env::system::r#virtual::SIGTERM,
+            Some("KILL") => yash_env::system::r#virtual::SIGKILL,
+            _ => return BResult::new(yash_env::semantics::ExitStatus(2)),
+        };
+        let pid = env.system.getpid();
+        let _ = env.system.kill(pid, Some(sig)).await;
+        BResult::new(env.exit_status)
+    })
+}
+
 fn ofd_id(rc: &Rc<RefCell<OpenFileDescription>>) -> usize {
     let ptr = Rc::as_ptr(rc) as usize;
     OFD_IDS.with(|ids| {
@@ -164,7 +192,17 @@ fn flat_snapshot(env: &mut VEnv) -> Flat {
             }
         }
     }
-    m.insert("cwd".into(), normal_path(s["cwd"].as_str().unwrap_or("")));
+    {
+        // (read from the process table: `shell::snapshot` knows the cwd only under its own runner)
+        use yash_env::system::GetPid as _;
+        let pid = env.system.getpid();
+        let cwd = ST.with(|st| {
+            st.borrow().as_ref().and_then(|st| {
+                st.borrow().processes.get(&pid).map(|p| p.getcwd().to_string_lossy().into_owned())
+            })
+        });
+        m.insert("cwd".into(), normal_path(&cwd.unwrap_or_default()));
+    }
     m.insert("umask".into(), format!("{:03o}", s["umask"].as_u64().unwrap_or(0)));
     let pid = env.system.getpid();
     let state = ST.with(|s| s.borrow().clone());
@@ -214,6 +252,11 @@ pub struct Scenario {
     /// "main": the construct is a command of the script; "trap": it is executed from
     /// inside a trap action while another caught signal is pending
     pub ctx: String,
+    /// "script" (`yash -c`) or "interactive" (`yash -i -c`)
+    pub mode: String,
+    /// how every subshell of the scenario ends, after its last snapshot: "normal"
+    /// (falls off the end) or a command text (`exit 3`, `selfkill INT`, ...)
+    pub fin: String,
     pub pre: Vec<String>,
     pub ch: Vec<Vec<String>>,
     pub post: Vec<String>,
@@ -227,7 +270,7 @@ impl Scenario {
     pub fn from_json(v: &Value) -> Option<Scenario> {
         let kind = v["kind"].as_str()?.to_string();
         let ch: Vec<Vec<String>> = v["ch"].as_array()?.iter().map(strs).collect();
-        let want = if kind == "Pipe" { 2 } else { 1 };
+        let want = pipe_width(&kind).unwrap_or(1);
         if ch.len() != want {
             return None;
         }
@@ -235,10 +278,15 @@ impl Scenario {
         if ctx != "main" && ctx != "trap" {
             return None;
         }
-        Some(Scenario { kind, ctx, pre: strs(&v["pre"]), ch, post: strs(&v["post"]) })
+        let mode = v["mode"].as_str().unwrap_or("script").to_string();
+        if mode != "script" && mode != "interactive" {
+            return None;
+        }
+        let fin = v["fin"].as_str().unwrap_or("normal").to_string();
+        Some(Scenario { kind, ctx, mode, fin, pre: strs(&v["pre"]), ch, post: strs(&v["post"]) })
     }
     pub fn to_json(&self) -> Value {
-        json!({"kind": self.kind, "ctx": self.ctx, "pre": self.pre, "ch": self.ch, "post": self.post})
+        json!({"kind": self.kind, "ctx": self.ctx, "mode": self.mode, "fin": self.fin, "pre": self.pre, "ch": self.ch, "post": self.post})
     }
 
     /// The script.  One command per line; the probes are the observation points
@@ -280,7 +328,7 @@ impl Scenario {
         line(&mut s, "xsnap before");
         // In the concurrent kinds every process has a preemption point before
         // each of its steps (first look included), see `pause`.
-        let conc = self.kind == "Pipe" || self.kind == "Async";
+        let conc = pipe_width(&self.kind).is_some() || self.kind == "Async";
         let body = |s: &mut String, j: usize, tail: Option<&str>| {
             if conc {
                 s.push_str(&format!("pause C{}\n", j + 1));
@@ -298,6 +346,10 @@ impl Scenario {
                 s.push_str(t);
                 s.push('\n');
             }
+            if self.fin != "normal" {
+                s.push_str(&self.fin);
+                s.push('\n');
+            }
         };
         match self.kind.as_str() {
             "Paren" => {
@@ -310,11 +362,14 @@ impl Scenario {
                 body(&mut s, 0, Some("echo out"));
                 line(&mut s, ")\"");
             }
-            "Pipe" => {
-                line(&mut s, "{");
+            k if pipe_width(k).is_some() => {
+                let n = pipe_width(k).unwrap();
+                line(&mut s, if k.starts_with("Not") { "! {" } else { "{" });
                 body(&mut s, 0, Some("echo data"));
-                line(&mut s, "} | {");
-                body(&mut s, 1, Some("cat"));
+                for j in 1..n {
+                    line(&mut s, "} | {");
+                    body(&mut s, j, Some("cat"));
+                }
                 line(&mut s, "}");
             }
             "Async" => {
@@ -339,7 +394,7 @@ impl Scenario {
     /// The pause points of the scenario as a multiset of roles (in program order per role).
     pub fn turns(&self) -> Vec<(String, usize)> {
         let mut v = vec![];
-        if self.kind == "Pipe" || self.kind == "Async" {
+        if pipe_width(&self.kind).is_some() || self.kind == "Async" {
             for (j, c) in self.ch.iter().enumerate() {
                 v.push((format!("C{}", j + 1), c.len() + 1));
             }
@@ -419,7 +474,16 @@ pub fn run_once(sc: &Scenario, plan: &[String], schedule: Schedule) -> Obs {
     PLAN.with(|p| *p.borrow_mut() = plan.to_vec());
     TURNS.with(|t| t.borrow_mut().clear());
     let (script, act) = sc.render_parts();
-    let mut cfg = ShellCfg::command_with(&[], &script, &["p", "q"]);
+    // An interactive shell discards the rest of its input buffer when a command
+    // line is interrupted: it reads the script from standard input line by line
+    // (`yash -i -s p q`), the non-interactive one gets it as `-c` string.
+    let mut cfg = if sc.mode == "interactive" {
+        let mut c = ShellCfg::stdin_script(script.as_bytes());
+        c.argv = ["yash", "-i", "-s", "p", "q"].iter().map(|x| x.to_string()).collect();
+        c
+    } else {
+        ShellCfg::command_with(&[], &script, &["p", "q"])
+    };
     cfg.schedule = schedule;
     cfg.step_limit = 100_000;
     cfg.files = vec![
@@ -436,8 +500,9 @@ pub fn run_once(sc: &Scenario, plan: &[String], schedule: Schedule) -> Obs {
         BASE.with(|b| *b.borrow_mut() = Some(now));
         env.builtins.insert("xsnap", Builtin::new(Type::Mandatory, xsnap_main));
         env.builtins.insert("pause", Builtin::new(Type::Mandatory, pause_main));
+        env.builtins.insert("selfkill", Builtin::new(Type::Mandatory, selfkill_main));
     }));
-    let r = shell::run_shell(cfg);
+    let r = if sc.mode == "interactive" { crate::runner::run_shell(cfg) } else { shell::run_shell(cfg) };
     ST.with(|s| *s.borrow_mut() = None);
     let mut snaps = HashMap::new();
     let mut out = String::new();
@@ -462,7 +527,7 @@ pub fn run_once(sc: &Scenario, plan: &[String], schedule: Schedule) -> Obs {
             out = e["args"][1].as_str().unwrap_or("").to_string();
         }
     }
-    if sc.kind == "Pipe" {
+    if pipe_width(&sc.kind).is_some() {
         out = r.stdout_str();
     }
     let mut outcome = match &r.outcome {
